@@ -1,7 +1,8 @@
 # C19 — value semantics and allocator hygiene
 #
 # Families:
-#   ledger   kll_sketch<Item>, update_tuple_sketch<Item> (= theta_update_sketch_base with a payload), frequent_items_sketch<Item>
+#   ledger   kll_sketch<Item>, update_tuple_sketch<Item> (= theta_update_sketch_base with a payload), frequent_items_sketch<Item>,
+#            req_sketch<Item> (compactor items_), var_opt_sketch<Item> (data_ with the gap slot / filled_data_)
 #            with the tracking allocator vl::talloc and the instrumented vl::Item (harness/ledger_track.hpp) against the
 #            extracted Coq machine coq/LedgerDefs.v: after every operation live item count, total slots of live item buffers
 #            and the hygiene flags are compared EXACTLY with what the model's effect ledger says.
@@ -14,9 +15,10 @@
 #   see MUTATIONS at the end of this file.
 PROP = "C19"
 READY = True
-COQ_PROPS = ['Properties_C19']
-RULE = ('[ledger] operation scripts over 5 registers holding kll_sketch<Item> (k in 8..200), update_tuple_sketch<Item> (lg_k 5/6, all resize factors) '
-        'or frequent_items_sketch<Item> (lg_max 3..7, all start sizes): bursts of updates sized to cross KLL compactions/buffer growth, theta resize/rebuild '
+COQ_PROPS = ['Properties_C19', 'Regression_ledger']
+RULE = ('[ledger] operation scripts over 5 registers holding kll_sketch<Item> (k in 8..200), update_tuple_sketch<Item> (lg_k 5/6, all resize factors), '
+        'frequent_items_sketch<Item> (lg_max 3..7, all start sizes), req_sketch<Item> (k 4..20, HRA and LRA; bursts crossing compactions, section-size reductions and '
+        'new levels) or var_opt_sketch<Item> (k 1..100, all resize factors; warm-up growth, the switch to sampling, updates, copies and resets in sampling mode): bursts of updates sized to cross KLL compactions/buffer growth, theta resize/rebuild '
         'and frequent-items resize/purge; copy construction, move construction, copy assignment incl. self-assignment, move assignment incl. self-move, '
         'merge by reference and by move (moved-from objects are then destroyed or assigned to within the same operation), a = b = c, reset/trim, '
         'query on a temporary copy, destruction, refused configurations and invalid register uses; every case ends with "destroy all". '
@@ -30,10 +32,11 @@ RULE = ('[ledger] operation scripts over 5 registers holding kll_sketch<Item> (k
         'and var_opt_union (max_k in the same set, gadget grown past every reallocation of data_/weights_/marks_, get_result, copy/move/assign, reset); '
         'growth-through-every-reallocation cases for kll, tuple, fi, req, quantiles, ebpps, hll (list->set->array, HLL_4 aux), cpc (all flavors), theta, tdigest, '
         'count-min, density, with copies/moves/assignments/merges taken at every stage')
-TRUSTED = ['effect-ledger models coq/LedgerKll.v, LedgerTup.v, LedgerFi.v written by hand from kll_sketch_impl.hpp / kll_helper_impl.hpp, '
-           'theta_update_sketch_base_impl.hpp and reverse_purge_hash_map_impl.hpp (sizes and constructed sets only, no item values); tied to the code by the '
+TRUSTED = ['effect-ledger models coq/LedgerKll.v, LedgerTup.v, LedgerFi.v, LedgerReq.v, LedgerVo.v written by hand from kll_sketch_impl.hpp / kll_helper_impl.hpp, '
+           'theta_update_sketch_base_impl.hpp, reverse_purge_hash_map_impl.hpp, req_compactor_impl.hpp / req_sketch_impl.hpp and var_opt_sketch_impl.hpp (sizes and constructed sets only, no item values); tied to the code by the '
            'exact comparison of live items / live item-buffer slots / flags after every operation of every generated script',
-           'hash values (theta compute_hash, fmix64 of the item hash) are read from the implementation and passed to the model (theorems hold for ANY values)',
+           'hash values (theta compute_hash, fmix64 of the item hash), the REQ table of section sizes nearest_even(k / sqrt(2)^j) (float arithmetic) and the var_opt '
+           '(h_, r_) after each update (weight-dependent) are read from the implementation and passed to the model (theorems hold for ANY values)',
            'theta/tuple table: physical slot positions are canonicalised in the model (compact prefix); only counts, sizes and block identity are modelled',
            'instrumentation harness/ledger_track.hpp (tracking allocator with arenas, instrumented item with an address registry) and ASan/LSan/UBSan',
            'the value-semantics part (family vsem) and everything about exceptions is differential TESTING with sanitizers, not proof']
@@ -61,12 +64,15 @@ KIND_PARAMS = {
     1: lambda rng: [rng.choice([5, 5, 5, 6]), rng.choice([0, 1, 2, 3])],
     2: lambda rng: (lambda mx: [mx, rng.choice([3, mx, rng.randrange(3, mx + 1)])])(rng.choice([3, 3, 4, 4, 5, 6, 7])),
     3: lambda rng: [rng.choice([4, 4, 6, 8, 12, 20]), rng.randrange(2)],
+    4: lambda rng: [rng.choice([1, 2, 8, 16, 17, 32, 100]), rng.randrange(4)],
 }
-NKINDS = 4
+NKINDS = 5
 
 def upd(rng, kind, r, universe):
     if kind in (0, 3):
         return [2, r, rng.randrange(-50, 1000), 1, rng.randrange(2)]
+    if kind == 4:
+        return [2, r, rng.randrange(1000), rng.choice([1, 1, 2, 3, 5, 8, 40]), rng.randrange(2)]
     if kind == 1:
         return [2, r, rng.randrange(universe), rng.randrange(1, 5), 0]
     return [2, r, rng.randrange(universe), rng.choice([0, 1, 1, 1, 2, 3, 5, 9]), rng.randrange(2)]
@@ -106,7 +112,7 @@ def gen_ledger(rng, tier):
                     p = [rng.choice([0, 4, 7, 27, 70000]), rng.choice([0, 9])]     # mostly refused configurations
                 ops.append([1, r, k2] + p)
                 ok = (k2 == 0 and 8 <= p[0] <= 65535) or (k2 == 1 and 5 <= p[0] <= 26 and 0 <= p[1] <= 3) or (k2 == 2 and p[1] <= p[0] <= 12) or \
-                     (k2 == 3 and 4 <= p[0] <= 255 and p[0] % 2 == 0 and p[1] <= 1)
+                     (k2 == 3 and 4 <= p[0] <= 255 and p[0] % 2 == 0 and p[1] <= 1) or (k2 == 4 and 1 <= p[0] <= 65535 and p[1] <= 3)
                 if ok: live[r] = k2
             elif x < 0.55:
                 r = some()
@@ -140,7 +146,7 @@ def gen_ledger(rng, tier):
                     tags.add('move-assign')
             elif x < 0.87:
                 r = some(); s = some(live[r])
-                if live[r] == 1 or r == s:
+                if live[r] in (1, 4) or r == s:
                     ops.append([7, r, s]); tags.add('refused')
                 elif rng.random() < 0.5:
                     ops.append([7, r, s]); tags.add('merge')
@@ -150,7 +156,7 @@ def gen_ledger(rng, tier):
                     if gone: live.pop(s)
                     tags.add('merge-move')
             elif x < 0.90:
-                r = some(); ops.append([rng.choice([9, 12]), r]); tags.add('reset/trim' if live[r] == 1 else 'refused')
+                r = some(); ops.append([rng.choice([9, 12]), r]); tags.add('reset/trim' if live[r] in (1, 4) else 'refused')
             elif x < 0.93:
                 r = some(); ops.append([10, r]); live.pop(r); tags.add('destroy')
             elif x < 0.96:
@@ -609,10 +615,11 @@ def extra(chk):
             chk.cov['traces_validated_against_impl'] += 1
 
 MANIFEST = dict(
-    level_text=('Theorems (coq/Properties_C19.v, 17, axiom-free) about the effect-ledger machine coq/LedgerDefs.v that is extracted and run against the C++ on every '
+    level_text=('Theorems (coq/Properties_C19.v, 17, and coq/Regression_ledger.v, 3; axiom-free) about the effect-ledger machine coq/LedgerDefs.v that is extracted and run against the C++ on every '
                 'check: for ANY script of lifecycle operations (construct, update, copy, move, copy-/move-assignment incl. self-assignment and self-move, merge by '
                 'reference / by move, a = b = c, reset, trim, destroy, destroy all) over registers holding the modelled hand-managed buffers — KLL items_, the theta/tuple '
-                'hash table entries_, the frequent-items keys_/values_/states_ triple — and for ANY hash values: every allocate/deallocate/placement-new/destructor '
+                'hash table entries_, the frequent-items keys_/values_/states_ triple, the REQ compactor items_ buffers, var_opt data_ (gap slot and filled_data_ as coded) '
+                '— and for ANY hash values / section-size tables / heap sizes: every allocate/deallocate/placement-new/destructor '
                 'effect the model emits is accepted by the ledger judge (accepted = release with the size of the allocation, of a live block holding no constructed '
                 'slot; construction only over unconstructed slots inside a live block; destruction/read only of constructed slots — C19_accepted_*), so the hygiene flag '
                 'of every step is 0 unless the model reached an Abort outcome; at rest each register\'s ledger is exactly its buffers with exactly the slots its counters '
@@ -625,7 +632,9 @@ MANIFEST = dict(
                 'default-constructed allocator, release with live items) and item hygiene (double destroy, construct over live, use of destroyed / moved-from). TESTED only '
                 '(family vsem, sanitizers): value semantics of all ten sketch kinds — copies equal and independent, moves transfer the state and leave the source '
                 'destructible and assignable, chains, self-assignment, self-move, merge(std::move) — and behaviour when the item copy constructor throws. NOT claimed: '
-                'REQ, var_opt, quantiles, ebpps, HLL, CPC buffers have no ledger model; theta slot positions are canonicalised; the Abort outcomes (KLL general_compress space '
+                'Regression_ledger.v: var_opt_sketch_lifecycle_ok (all histories without decrease_k_by_1) and two _refuted theorems with computed witnesses for the shipped '
+                'decrease_k_by_1 discipline (finding var_opt_union_result_item_lifetime: swap with the raw gap slot of the gadget copy; slot dropped by --k never destroyed); '
+                'var_opt weights_/marks_ and the union itself, quantiles, ebpps, HLL, CPC buffers have no ledger model; theta slot positions are canonicalised; the Abort outcomes (KLL general_compress space '
                 'bound — proved separately in coq/KllSpace.v for C07 —, frequent-items resize/purge/iterator consistency) are assumed unreachable, never observed; absence of '
                 'leaks / use-after-free / aliasing in the compiled C++ beyond the sampled scripts. Known findings are listed in known_findings.json (hll assignment x2, '
                 'ebpps merge with user allocator, optional::emplace, sorted-view release through the wrong allocator x3, exception safety of copy constructors / update / merge).'),
@@ -647,10 +656,13 @@ MANIFEST = dict(
 #   M8  kll add_empty_top_level: deallocate(items_, new_total_cap)
 #   M9  kll operator=(const&): items_size_ not swapped (later deallocate with the wrong size)
 #   M10 req_compactor destructor skips the first item
+#   M11 req compact(): destroys one item less than the compaction range          M12 req grow(): deallocate(items_, new_capacity)
+#   M13 var_opt grow_data_arrays(): moved-from items not destroyed               M14 var_opt copy ctor keeps filled_data_ of the source
 #   (DESIGN 9 "missing self-assignment guard (F9 regression)": hll_sketch::operator=; on the unrepaired code the dedicated cases
 #    vshllself* stop under ASan -> sig hll_self_assign, reported as KNOWN-FINDING while that entry is in known_findings.json)
 #  tolerated (exit 0):
 #   H1  theta STRIDE_HASH_BITS 7 -> 8 (different physical slot layout)
 #   H2  kll add_empty_top_level allocates and releases an extra scratch block (allocation count changes, sizes matched)
 #   H3  theta resize(): deallocate the old table before installing the new pointer, no std::swap (order of independent statements)
+#   H4  req grow(): install the new pointer before releasing the old buffer
 # ---------------------------------------------------------------------------------------------------------------------
